@@ -58,6 +58,13 @@ def units(tier, seed):
     out = common.doc_units(PROPERTY_ID, specs, per_scope_blocks=8 if q else 16)
     for u in out:
         u["kind"] = "zoo"
+    for sid, fam, size, donor in (("basic", "blocks", 2 if q else 3, ("blocks", 3)), ("list", "lists", 6 if q else 8, ("lists", 6)),
+                                  ("iso", "iso", 4 if q else 5, ("iso", 4))):
+        for uu in common.doc_units(PROPERTY_ID, [{"sid": sid, "family": fam, "size": size, "donor": donor, "offset": seed}],
+                                   per_scope_blocks=8):
+            uu["kind"] = "shared"
+            uu["name"] += "/shared-objects"
+            out.append(uu)
     ids = schemas.fgen_ids()
     step = 24 if q else 4
     sel = ids[(seed % step)::step]
@@ -148,13 +155,14 @@ def check_result(c, d, T, op, status, tr, exc, res, total):
                 return
 
 
-def check_doc(c, sc, d, pools, res, total):
+def check_doc(c, sc, d, pools, res, total, node=None, groups=("replace",), with_replace_step=True):
     model = c.model
-    node = c.node(d)
+    if node is None:
+        node = c.node(d)
     T = tk.doc_tokens(model, d)
     n = len(T)
     res.states += 1
-    for op in ops.enumerate_ops(model, n, pools, groups=("replace",)):
+    for op in ops.enumerate_ops(model, n, pools, groups=groups):
         engine.kick(10)
         res.transitions += 1
         try:
@@ -163,6 +171,8 @@ def check_doc(c, sc, d, pools, res, total):
             res.violate("c11.hang", {"schema": c.id, "doc": d, "op": op}, "watchdog", size=n)
             continue
         check_result(c, d, T, op, status, tr, exc, res, total)
+    if not with_replace_step:
+        return
     # replace_step: returns a step that applies, or None
     for a in range(n + 1):
         for b in range(a, n + 1):
@@ -184,9 +194,65 @@ def check_doc(c, sc, d, pools, res, total):
                                     size=n)
 
 
+def shared_object_histories(c, sc, docs, pools, res):
+    """Documents that contain the SAME live node object twice (inserted by two earlier operations at all pairs of
+    positions), then every replace-family operation on them: sharing sub-trees by identity must not matter."""
+    model = c.model
+    nd = 0
+    live_nodes = [(nj, c.node(nj)) for nj in pools["nodes"][:3]]
+    small_pools = {**pools, "slices": pools["slices"][:6], "nodes": pools["nodes"][:3]}
+    for d in docs:
+        base = c.node(d)
+        n0 = base.content.size
+        for nj, ln in live_nodes:
+            seen = set()
+            for i in range(n0 + 1):
+                tr = adapters.Transform(base)
+                try:
+                    tr.insert(i, ln)
+                except ValueError:
+                    continue
+                if not tr.steps:
+                    continue
+                mid = tr.doc
+                for j in range(mid.content.size + 1):
+                    tr2 = adapters.Transform(mid)
+                    try:
+                        tr2.insert(j, ln)
+                    except ValueError:
+                        continue
+                    if not tr2.steps:
+                        continue
+                    doc2 = tr2.doc
+                    dj = doc2.to_json()
+                    k = jkey(dj)
+                    if k in seen or common.doc_size(model, dj) > 12:
+                        continue
+                    seen.add(k)
+                    nd += 1
+                    before = len(res.violations)
+                    check_doc(c, sc, dj, small_pools, res, True, node=doc2, with_replace_step=False)
+                    for v in res.violations[before:]:
+                        if isinstance(v.case, dict):
+                            v.case = {**v.case, "shared_history": {"start": d, "node": nj, "insert_at": [i, j]}}
+    return nd
+
+
 def run_unit(u):
     res = engine.UnitResult(PROPERTY_ID)
     engine.arm()
+    if u["kind"] == "shared":
+        c, sc, docs = common.unit_docs(u)
+        pool = common.pool_slices(u["sid"], u["donor"][0], u["donor"][1])
+        pools = ops.default_pools(c, sc, pool, 12, offset=u.get("offset", 0))
+        nd = shared_object_histories(c, sc, docs, pools, res)
+        if docs:
+            res.sample({"schema": c.id, "shared_history": {"start": docs[-1], "node": pools["nodes"][0] if pools["nodes"] else None,
+                                                          "insert_at": [0, 1]}})
+        res.scopes.append({"unit": u["name"], "roots": len(docs), "documents_with_shared_objects": nd, "completed": True})
+        engine.disarm()
+        res.evaluations = res.transitions
+        return res
     if u["kind"] == "zoo":
         c, sc, docs = common.unit_docs(u)
         pool = common.pool_slices(u["sid"], u["donor"][0], u["donor"][1])
@@ -223,6 +289,13 @@ def replay(case):
     c = adapters.Ctx(case["schema"], case["spec"]) if case.get("spec") else adapters.ctx(case["schema"])
     d = case["doc"]
     node = c.node(d)
+    if case.get("shared_history"):
+        h = case["shared_history"]
+        ln = c.node(h["node"])
+        tr = adapters.Transform(c.node(h["start"]))
+        tr.insert(h["insert_at"][0], ln)
+        tr.insert(h["insert_at"][1], ln)
+        node = tr.doc
     T = tk.doc_tokens(c.model, d)
     op = case["op"]
     engine.arm()
